@@ -3,8 +3,9 @@ import GluonModel.Sexp
 Model of the typed JSON codec at the level of `std.json.Value` (std/json.glu:8-15):
 `Serialize` instances of std/json/ser.glu:74-105 and `Deserialize` instances of std/json/de.glu:88-199,
 for the types built from Int, Bool, String, Float, Option and Array. The text layer
-(vm/src/api/json.rs → serde_json) is abstracted as `textRoundTrip rd`, where `rd` says which float
-(bit pattern) the reader returns for the text the printer produced for a given float.
+(vm/src/api/json.rs → serde_json) is abstracted by the parameter `rd` of `de`: which float (bit pattern)
+the reader returns for the text the printer produced for a given float; `textCodec` is the one of the
+code as it is.
 -/
 namespace GluonModel.StdJson
 
@@ -83,6 +84,28 @@ def Representable : Ty → Prop
   | .arr t => Representable t
   | _ => True
 
-def handleJson (_ : List Sexp) : String := "unimplemented"
+/-- The float codec of the text layer AS THE CODE IS NOW: /repo/vm/Cargo.toml:41 builds serde_json with
+    `float_roundtrip` (fix dbce32d), i.e. correctly rounded parsing of the shortest-round-trip text
+    that `prim.serialize` prints, so every finite float is read back as itself. serde_json is not
+    modelled; this definition is tied to the code by the `(json float <bits>)` correspondence cases
+    (the real ser → de on generated floats, bit patterns compared) and by the oracle. -/
+def textCodec (bits : Nat) : Nat := bits
+
+/-- The OLD text layer (before dbce32d, serde_json's default inexact float parser), at the bit pattern
+    observed on the real code then: -2.6718800418338653e135 was read back 1 ulp lower. -/
+def oldTextCodec (bits : Nat) : Nat :=
+  if bits = 0xdc0d6881c1e92ae4 then 0xdc0d6881c1e92ae3 else bits
+
+/-- driver request `(json float <bits>)`: the bit pattern `de (ser f)` yields for the float `bits`. -/
+def handleJson : List Sexp → String
+  | [.atom "float", b] =>
+    match b.toNat? with
+    | some bits =>
+      let res : Option Nat := de textCodec .float (ser .float bits)
+      match res with
+      | some r => "(ok " ++ toString r ++ ")"
+      | none => "none"
+    | none => "bad-request"
+  | _ => "bad-request"
 
 end GluonModel.StdJson
